@@ -171,7 +171,13 @@ def collect_information(exprs):  # noqa: C901
                     continue
                 sym, term = var
                 if sym.is_leaf():
-                    __sort_lookup[sym.data] = get_sort(term)
+                    try:
+                        sort = get_sort(term)
+                    except Exception as e:
+                        # sort inference assumes well-formed terms
+                        logging.trace(f'{type(e)} in sort inference: {e}')
+                        sort = None
+                    __sort_lookup[sym.data] = sort
                     __definition_node_ids.add(sym.id)
         # Determine sort of symbols introduced by quantifiers
         if (is_operator_app(node, 'exists')
